@@ -47,7 +47,8 @@ pub trait MapValidVec<T: IsNone>: Vec1View<T> {
                     .chain(std::iter::repeat_n(value, n_abs))
                     .to_trust(len),
             ),
-            _ => Box::new(std::iter::repeat_n(T::zero(), len).to_trust(len)),
+            // lag 0: x - x, which keeps nulls null
+            _ => Box::new(self.titer().map(|v| v.clone() - v)),
         }
     }
 
@@ -99,7 +100,11 @@ pub trait MapValidVec<T: IsNone>: Vec1View<T> {
                     .chain(std::iter::repeat_n(f64::NAN, n_abs))
                     .to_trust(len),
             ),
-            _ => Box::new(std::iter::repeat_n(0., len).to_trust(len)),
+            // lag 0: x / x - 1, null for a null or zero base
+            _ => Box::new(self.titer().map(|v| {
+                let a: f64 = v.cast();
+                if a.not_none() && (a != 0.) { 0. } else { f64::NAN }
+            })),
         }
     }
 
